@@ -84,7 +84,7 @@ pub enum FaultClass {
 pub fn has_try_api(op: Op) -> bool {
     use Op::*;
     match op {
-        FromStr(_) | ToLeanDisplay(_) | WithCap(_) | WithCapAbs(_) => true,
+        FromStr(_) | ToLeanDisplay(_) | ToLeanSwallow(_) | WithCap(_) | WithCapAbs(_) => true,
         Conv(k, _) => matches!(k, 4 | 8 | 9 | 10 | 11),
         Push(..) | PushStr(..) | PushAscii(..) | Pop(_) | Remove(..) | Insert(..) | InsertStr(..) | Truncate(..) | TruncateAbs(..) | Retain(..) | RetainPanic(..) | Reserve(..) | ReserveHuge(..) | ShrinkTo(..) | ShrinkFit(_) => true,
         _ => false,
@@ -95,7 +95,7 @@ pub fn has_try_api(op: Op) -> bool {
 fn pieces(p: &Pool, op: Op) -> Option<Vec<String>> {
     use Op::*;
     Some(match op {
-        ExtendChars(_) => vec!["a".into(), "€".into()],
+        ExtendChars(_) | ExtendFiltered(_) => vec!["a".into(), "€".into()],
         ExtendStrs(_) => vec!["b".into(), "cd".into()],
         ExtendLean(_, s) => vec![p.m[s as usize].clone().unwrap_or_default()],
         ExtendHuge(_, n) => ['x', 'é'].iter().take(n as usize).map(|c| c.to_string()).collect(),
@@ -121,12 +121,22 @@ pub fn exec_faulted(p: &mut Pool, f: &Faulted, out: &mut Vec<Viol>) -> (FaultCla
         Outcome::Panic(m) => !tryish && m == ALLOC_MSG,
         _ => false,
     };
+    let mut extra: Vec<Viol> = Vec::new();
     let class = if let Outcome::Done(_) = rec.lean {
         let mut c = Vec::new();
         oracle::c01(&rec, p, &mut c);
         if let Some(e) = c.first() {
             v("absorbed-wrong", format!("{what}: the call completed but {}", e.detail));
             sync_model(p);
+        }
+        // a call that completes although a request was refused is still an append / reserve /
+        // shrink: the capacity promises (C11), the growth bounds (C12) and the shrink algebra
+        // (C13) apply to its result like to any other
+        oracle::c11(&rec, p, &mut extra);
+        oracle::c12(&rec, p, &mut extra);
+        oracle::c13(&rec, p, &mut extra);
+        for e in extra.iter_mut() {
+            e.detail = format!("{what}: {}", e.detail);
         }
         FaultClass::Absorbed
     } else if reported {
@@ -173,12 +183,31 @@ pub fn exec_faulted(p: &mut Pool, f: &Faulted, out: &mut Vec<Viol>) -> (FaultCla
         sync_model(p);
         FaultClass::Wrong
     };
+    // a refused shrink still may not leave the capacity outside the statement's bounds
+    if let (true, Some(m), Some(t)) = (reported, rec.shrink_m, f.op.target()) {
+        if let (Some(a), Some(b)) = (rec.pre[t].as_ref(), rec.post[t].as_ref()) {
+            let mut vv = |o: &'static str, d: String| extra.push(Viol { prop: "C13", oracle: o, detail: format!("{what}: {d}") });
+            if b.text != a.text {
+                vv("text", "the refused shrink changed the text".into());
+            }
+            if b.cap > a.cap.max(INLINE) {
+                vv("grew", format!("capacity {} -> {} after the refused shrink", a.cap, b.cap));
+            }
+            if b.cap < b.len {
+                vv("below-len", format!("capacity {} < len {}", b.cap, b.len));
+            }
+            if b.cap < m && a.cap >= m {
+                vv("below-m", format!("capacity {} -> {} fell below m = {m} although the shrink was refused", a.cap, b.cap));
+            }
+        }
+    }
     // everybody else untouched, heap consistent
     let mut c = Vec::new();
     oracle::c02(&rec, p, &mut c);
     for e in c {
         v("other-changed", format!("{what}: {}", e.detail));
     }
+    out.append(&mut extra);
     let mut c = Vec::new();
     oracle::c03(&rec, p, &mut c);
     for e in c {
@@ -250,10 +279,14 @@ pub fn fault_ops(prof: &Profile, p: &Pool) -> Vec<Op> {
     let mut v: Vec<Op> = enabled(prof, p).into_iter().map(|i| prof.table[i as usize]).collect();
     if p.empty_slot().is_some() {
         for k in 0..CONV_KINDS {
-            for t in [3u8, 4] {
+            for t in [3u8, 4, 5] {
                 v.push(Op::Conv(k, t));
             }
         }
+        for t in [4u8, 5] {
+            v.push(Op::ToLeanSwallow(t));
+        }
+        v.extend([Op::FromStr(5), Op::Collect(5), Op::ToLeanDisplay(5), Op::FromString(5)]);
     }
     v
 }
